@@ -3,10 +3,17 @@ C07 — Suite expansion selects, names and populates permutations per suite dire
 Property theorems only; helper lemmas live in `ConfModel.Lemmas.Library`.
 All statements hold for every list of suites (any directives, any number of tests), every set of
 config cases (given as a list `cases`; the code only asks membership) and every run mode.
-`join` stands for Go's `path.Join`; the only thing assumed of it is that it ignores an empty
-element (`hj`), which `pathJoin_ignores_empty` proves of the model of `path.Join` the driver runs.
+`join` stands for Go's `path.Join`; the only thing the expansion theorems assume of it is that it
+ignores an empty element (`hj`), which `pathJoin_ignores_empty` proves of the model of `path.Join`
+the driver runs.  The theorems about what names identify (`full_name_segments`, `names_injective`,
+`names_distinct_of_clean`, `duplicate_error_genuine`) are about that model, `pathJoin`, itself
+(split at '/', the component loop of `path.Clean`, join — compared with the real `path.Join` by the
+`join` operation of the correspondence run).
 -/
 import ConfModel.Lemmas.Library
+import ConfModel.Lemmas.LibraryAccept
+import ConfModel.Lemmas.LibraryNames
+import ConfModel.Generated.C07Facts
 namespace ConfModel.Props.C07
 open ConfModel.Config ConfModel.Library
 
@@ -81,11 +88,8 @@ theorem openAxes_spec (s : Suite) (c : Case) :
       (if s.protocols.length ≠ 1 then ["Protocol:" ++ c.p.str] else []) ++
       (if s.codecs.length ≠ 1 then ["Codec:" ++ c.c.str] else []) ++
       (if s.comps.length ≠ 1 then ["Compression:" ++ c.z.str] else []) ++
-      (if s.reliesOnTls = false then ["TLS:" ++ boolStr c.tls] else []) := by
-  have := namePrefix_eq s c
-  unfold namePrefix at this
-  simp only [List.cons_append, List.nil_append, List.cons.injEq, true_and] at this
-  rw [← this]
+      (if s.reliesOnTls = false then ["TLS:" ++ boolStr c.tls] else []) :=
+  openAxes_eq s c
 
 /-- Full names are unique (for any `join`: insertion rejects a name that is already present). -/
 theorem names_unique (join : List String → String)
@@ -93,16 +97,96 @@ theorem names_unique (join : List String → String)
     (h : newLibrary join suites inCases mode = .ok lib) : (lib.map (·.fullName)).Nodup :=
   (newLibrary_ok join suites inCases mode lib h).2.1
 
+/-- With the modelled `path.Join`, the '/'-separated segments of a full name are: the segments of
+the suite name, one segment per open axis, the segments of the test name (names being clean:
+no empty, `.` or `..` segment). -/
+theorem full_name_segments (s : Suite) (c : Case) (t : Test) (hs : CleanName s.name) (ht : CleanName t.name) :
+    segments (specName pathJoin s c t) =
+      segments s.name ++ (openAxes s c).map String.toList ++ segments t.name :=
+  segments_specName s c t hs ht
+
+/-- **Full names identify definitions.** Under `NamesClean` (every suite and test name clean; no
+suite name a segment-wise proper prefix of another) and distinctly named suites, two full names
+are equal only for the same suite, the same open-axes projection of the config case and the same
+test name. -/
+theorem names_injective (suites : List Suite) (hn : NamesClean suites) (hd : (suites.map (·.name)).Nodup)
+    (s₁ : Suite) (hs₁ : s₁ ∈ suites) (s₂ : Suite) (hs₂ : s₂ ∈ suites) (c₁ c₂ : Case)
+    (t₁ : Test) (ht₁ : t₁ ∈ s₁.tests) (t₂ : Test) (ht₂ : t₂ ∈ s₂.tests)
+    (h : specName pathJoin s₁ c₁ t₁ = specName pathJoin s₂ c₂ t₂) :
+    s₁ = s₂ ∧ openAxes s₁ c₁ = openAxes s₂ c₂ ∧ t₁.name = t₂.name :=
+  specName_inj suites hn hd s₁ hs₁ s₂ hs₂ c₁ c₂ t₁ ht₁ t₂ ht₂ h
+
+/-- … and the open-axes projection fixes the config case among those the suite admits with the
+same stream type (the pinned axes have one admitted value, the flags are the suite's). -/
+theorem names_injective_case (s : Suite) (mode : Mode) (c₁ c₂ : Case)
+    (h1 : Admits s mode c₁) (h2 : Admits s mode c₂) (hst : c₁.s = c₂.s)
+    (h : openAxes s c₁ = openAxes s c₂) : c₁ = c₂ :=
+  case_eq_of_axes s c₁ c₂ ((admits_iff _ _ _).1 h1).2 ((admits_iff _ _ _).1 h2).2 hst h
+
+/-- Hence with clean names and no duplicated definition (suites named distinctly, tests named
+distinctly inside a suite) the name clause of `WellFormed` needs no separate check: no two
+specified permutations spell the same name. -/
+theorem names_distinct_of_clean (suites : List Suite) (cases : List Case) (mode : Mode)
+    (hn : NamesClean suites) (hd : DefinitionsDistinct suites) (hc : cases.Nodup) :
+    ((specList pathJoin suites cases mode).map (·.fullName)).Nodup :=
+  names_specList_nodup suites cases mode hn hd hc
+
+/-- So for clean, distinctly named definitions (config cases listed once) being well-formed is a
+matter of the definitions alone — named non-empty suites, no misconfiguration, valid tests where a
+case is met, no relevant list repeating a value in use — and, by `newLibrary_accepts_iff`, exactly
+these inputs are expanded. -/
+theorem wellformed_iff_of_clean (suites : List Suite) (cases : List Case) (mode : Mode)
+    (hn : NamesClean suites) (hd : DefinitionsDistinct suites) (hc : cases.Nodup) :
+    WellFormed pathJoin suites cases mode ↔
+      ((∀ s ∈ suites, s.name ≠ "" ∧ s.tests ≠ []) ∧
+       (∀ s ∈ suites, ModeAdmits s mode → ¬ Misconfigured s) ∧
+       (∀ s ∈ suites, ∀ c ∈ cases, Admits s mode c →
+         (∀ t ∈ s.tests, t.name ≠ "" ∧ t.st ≠ .unspec ∧ (t.st = c.s → ServiceMethodOk t)) ∧
+         ((∃ t ∈ s.tests, t.st = c.s) → NoRepeat s c))) := by
+  constructor
+  · rintro ⟨w1, _, w3, w4, _⟩; exact ⟨w1, w3, w4⟩
+  · rintro ⟨w1, w3, w4⟩; exact ⟨w1, hd.1, w3, w4, names_distinct_of_clean suites cases mode hn hd hc⟩
+
+/-- **The "duplicate definition" error only fires on genuinely duplicated definitions**: with
+clean names, if `newTestCaseLibrary` fails with `duplicate definition for <name>` then two suites
+or two tests of one suite have the same name, or a relevant list names twice the value of a config
+case that carries a permutation (which defines each of its permutations twice). -/
+theorem duplicate_error_genuine (suites : List Suite) (cases : List Case) (mode : Mode) (n : String)
+    (hn : NamesClean suites)
+    (h : newLibrary pathJoin suites (inSet cases) mode = .error (.duplicateName n)) :
+    ¬ DefinitionsDistinct suites ∨
+      ∃ s ∈ suites, ∃ c ∈ cases, Admits s mode c ∧ (∃ t ∈ s.tests, t.st = c.s) ∧ ¬ NoRepeat s c := by
+  by_cases hd : DefinitionsDistinct suites
+  · right
+    apply Classical.byContradiction
+    intro hex
+    apply newLibrary_dup pathJoin suites _ mode n h
+    apply names_allPerms_nodup suites _ mode hn hd
+    intro s hs hadm c hc1 hc2 hext
+    apply Classical.byContradiction
+    intro hnr
+    exact hex ⟨s, hs, c, by simpa [inSet] using hc2, (admits_iff s mode c).2 ⟨hadm, hc1⟩, hext, hnr⟩
+  · exact Or.inl hd
+
+/-- the receive limit of the model is the constant `clientReceiveLimit` of the working tree
+(`Generated/C07Facts.lean` is regenerated from the tree on every run) -/
+theorem receive_limit_fact : Generated.C07Facts.clientReceiveLimit = clientReceiveLimit := by decide
+
 /-- The request carries the case's version, protocol, codec and compression; the server
 certificate placeholder iff the case uses TLS, client credentials iff it uses client certificates
-(with TLS); the given service and method, or the default service and the stream type's default
-method when both are omitted; and the case is one of the given config cases. -/
+(with TLS), both as the literal placeholder texts and nothing else; the given service and method,
+or the default service and the stream type's default method when both are omitted; the receive
+limit the runner always sets; and the case is one of the given config cases. -/
 theorem request_populated (join : List String → String) (hj : ∀ l, join ("" :: l) = join l)
     (suites : List Suite) (cases : List Case) (mode : Mode) (lib : List Perm)
     (h : newLibrary join suites (inSet cases) mode = .ok lib) (q : Perm) (hq : q ∈ lib) :
     q.case ∈ cases ∧ q.v = q.case.v ∧ q.p = q.case.p ∧ q.c = q.case.c ∧ q.z = q.case.z ∧
     q.st = q.test.st ∧ q.st = q.case.s ∧
     q.serverCert = q.case.tls ∧ q.clientCreds = (q.case.tls && q.case.certs) ∧
+    q.certText = (if q.case.tls then placeholder else "") ∧
+    q.credsText = (if q.case.tls ∧ q.case.certs then placeholder ++ "|" ++ placeholder else "") ∧
+    (q.serverCert = true ↔ q.certText ≠ "") ∧ (q.clientCreds = true ↔ q.credsText ≠ "") ∧
+    q.recvLimit = clientReceiveLimit ∧
     (q.test.service = "" ∧ q.test.method = "" →
       q.service = serviceName ∧ q.method = defaultMethod q.case.s) ∧
     (q.test.service ≠ "" → q.service = q.test.service ∧ q.method = q.test.method ∧ q.test.method ≠ "") := by
@@ -112,7 +196,11 @@ theorem request_populated (join : List String → String) (hj : ∀ l, join ("" 
   obtain ⟨s, hs, c, hc, ha, t, ht, hst, rfl⟩ := hq
   obtain ⟨hm, hc1⟩ := (admits_iff s mode c).1 ha
   have hok := ((e s hs hm).2 c hc1 (by simpa [inSet] using hc) t ht).2.2 hst
-  refine ⟨hc, rfl, rfl, rfl, rfl, rfl, hst, rfl, rfl, ?_, ?_⟩
+  refine ⟨hc, rfl, rfl, rfl, rfl, rfl, hst, rfl, rfl, rfl, rfl, ?_, ?_, rfl, ?_, ?_⟩
+  · simp only [specPerm]
+    cases c.tls <;> simp [placeholder]
+  · simp only [specPerm]
+    cases c.tls <;> cases c.certs <;> simp [placeholder]
   · intro hx; simp only [specPerm] at hx ⊢; simp [hx, hst]
   · intro hx
     simp only [specPerm] at hx ⊢
@@ -136,41 +224,51 @@ theorem bucket_eq_filter (lib : List Perm) (b : ServerKey × List Perm) (hb : b 
 
 
 
-/-- An accepted input is well-formed in every respect `WellFormed` lists except that relevant
-lists may repeat a value no case meets: suites named (distinctly) and non-empty, no suite taking
-part misconfigured, tests named / typed / with service and method given together wherever the
-suite meets a case, no two permutations with the same name.
-(Full statement not proved: `WellFormed join suites cases mode ∧ specList join suites cases mode ≠ []
-→ ∃ lib, newLibrary join suites (inSet cases) mode = .ok lib`, i.e. that `WellFormed` is also
-sufficient for acceptance; the traversal orders of `newLibrary` and `specList` differ, and the
-permutation argument relating them is missing. The correspondence run checks this direction on
-every well-formed input it generates.) -/
-theorem accepted_wellformed_partial (join : List String → String) (hj : ∀ l, join ("" :: l) = join l)
-    (suites : List Suite) (cases : List Case) (mode : Mode) (lib : List Perm)
+/-- **Sufficiency of `WellFormed`.** Well-formed suite definitions that specify at least one
+permutation are ACCEPTED, and the returned library is, as a set, the comprehension `specList`
+(with pairwise different names, so it has exactly as many entries). The proof relates the two
+traversal orders — the nested loops of `expandSuite` over the suite's relevant lists against the
+comprehension over the given cases — by counting how often a case is looked up
+(`count_suiteCases`). -/
+theorem wellformed_accepted (join : List String → String) (hj : ∀ l, join ("" :: l) = join l)
+    (suites : List Suite) (cases : List Case) (mode : Mode)
+    (hwf : WellFormed join suites cases mode) (hne : specList join suites cases mode ≠ []) :
+    ∃ lib, newLibrary join suites (inSet cases) mode = .ok lib ∧
+      (∀ q, q ∈ lib ↔ q ∈ specList join suites cases mode) ∧
+      (lib.map (·.fullName)).Nodup ∧ lib.length = (specList join suites cases mode).length := by
+  have h := wellFormed_accepts join hj suites cases mode hwf hne
+  refine ⟨_, h, fun q => library_mem_iff join hj suites cases mode _ h q,
+    (newLibrary_ok join suites _ mode _ h).2.1, ?_⟩
+  have h1 := nodup_of_nodup_map _ _ (newLibrary_ok join suites _ mode _ h).2.1
+  have h2 := nodup_of_nodup_map _ _ hwf.2.2.2.2
+  exact Nat.le_antisymm
+    (List.Nodup.length_le_of_subset h1 fun q hq => (library_mem_iff join hj suites cases mode _ h q).1 hq)
+    (List.Nodup.length_le_of_subset h2 fun q hq => (library_mem_iff join hj suites cases mode _ h q).2 hq)
+
+/-- **Necessity of `WellFormed`.** An accepted input is well-formed (the config cases being listed
+without repetition in `cases`; the code only uses membership) and specifies a permutation. -/
+theorem accepted_wellformed (join : List String → String) (hj : ∀ l, join ("" :: l) = join l)
+    (suites : List Suite) (cases : List Case) (mode : Mode) (hc : cases.Nodup) (lib : List Perm)
     (h : newLibrary join suites (inSet cases) mode = .ok lib) :
-    (∀ s ∈ suites, s.name ≠ "" ∧ s.tests ≠ []) ∧
-    (suites.map (·.name)).Nodup ∧
-    (∀ s ∈ suites, ModeAdmits s mode → ¬ Misconfigured s) ∧
-    (∀ s ∈ suites, ∀ c ∈ cases, Admits s mode c →
-      ∀ t ∈ s.tests, t.name ≠ "" ∧ t.st ≠ .unspec ∧ (t.st = c.s → ServiceMethodOk t)) ∧
-    (lib.map (·.fullName)).Nodup ∧
-    specList join suites cases mode ≠ [] := by
-  obtain ⟨_, b, c, d, e, f⟩ := newLibrary_ok join suites _ mode lib h
-  refine ⟨d, e, ?_, ?_, b, ?_⟩
-  · intro s hs hm hx
-    have := (f s hs hm).1
-    rw [(misconfigured_iff s).2 hx] at this
-    cases this
-  · intro s hs c' hc ha
-    obtain ⟨hm, hc1⟩ := (admits_iff s mode c').1 ha
-    exact (f s hs hm).2 c' hc1 (by simpa [inSet] using hc)
-  · intro hx
-    cases lib with
-    | nil => exact c rfl
-    | cons q _ =>
-      have := (library_eq_spec join hj suites cases mode _ h q).1 (by simp)
-      rw [hx] at this
-      simp at this
+    WellFormed join suites cases mode ∧ specList join suites cases mode ≠ [] :=
+  accepted_wellFormed join hj suites cases mode hc lib h
+
+/-- **`WellFormed` is exactly what `newTestCaseLibrary` accepts**: for a slice of config cases
+(repetitions allowed — the code builds a set) whose distinct members are `cases`, the expansion
+returns a library iff the suites are well-formed for `cases` and specify at least one permutation.
+Together with `library_eq_spec` the result is then exactly the specification. -/
+theorem newLibrary_accepts_iff (join : List String → String) (hj : ∀ l, join ("" :: l) = join l)
+    (suites : List Suite) (slice cases : List Case) (mode : Mode)
+    (hset : ∀ c, c ∈ slice ↔ c ∈ cases) (hnd : cases.Nodup) :
+    (∃ lib, newLibrary join suites (inSet slice) mode = .ok lib) ↔
+      (WellFormed join suites cases mode ∧ specList join suites cases mode ≠ []) := by
+  have e : inSet slice = inSet cases := by funext c; unfold inSet; simp [hset c]
+  rw [e]
+  constructor
+  · rintro ⟨lib, h⟩; exact accepted_wellformed join hj suites cases mode hnd lib h
+  · rintro ⟨hwf, hne⟩
+    obtain ⟨lib, h, _⟩ := wellformed_accepted join hj suites cases mode hwf hne
+    exact ⟨lib, h⟩
 
 /-- `allPermutations(client, server)` returns the library plus, for each gRPC reference peer in
 use, the applicable permutations under a name with the peer marker inserted before the test's
@@ -222,6 +320,65 @@ example : ((newLibrary simpleJoin [exampleSuite] (inSet exampleCases) .client).t
     some ["Basic/HTTPVersion:2/TLS:true/unary/ok", "Basic/HTTPVersion:1/TLS:false/unary/ok"] := by
   decide
 
-example : WellFormed simpleJoin [exampleSuite] exampleCases .client := by decide
+example : WellFormed simpleJoin [exampleSuite] exampleCases .client ∧
+    specList simpleJoin [exampleSuite] exampleCases .client ≠ [] ∧ exampleCases.Nodup := by decide
+
+/-! why `WellFormed` has the `NoRepeat` clause: a relevant list that names the value of a case
+carrying a permutation twice makes the code look the case up twice, and the second insertion is
+rejected as a duplicate definition; a repeated value that no such case has is harmless -/
+
+def repeatSuite : Suite := { exampleSuite with protocols := [.connect, .grpc, .grpc] }
+
+/-- the error of a rejected expansion -/
+def errOf {α} : Except LibErr α → Option LibErr | .error e => some e | .ok _ => none
+
+example : errOf (newLibrary simpleJoin [repeatSuite] (inSet exampleCases) .client) =
+    some (.duplicateName "Basic/HTTPVersion:2/Protocol:PROTOCOL_GRPC/TLS:true/unary/ok") ∧
+    ¬ WellFormed simpleJoin [repeatSuite] exampleCases .client := by decide
+
+example : (newLibrary simpleJoin [repeatSuite] (inSet (exampleCases.take 2)) .client).toOption.isSome = true ∧
+    WellFormed simpleJoin [repeatSuite] (exampleCases.take 2) .client := by decide
+
+/-! non-vacuity of `names_injective` / `duplicate_error_genuine`, and why `NamesClean` is needed -/
+
+example : NamesClean [exampleSuite] ∧ DefinitionsDistinct [exampleSuite] := by decide
+
+/-- the example is well-formed and expanded with the modelled `path.Join` too -/
+example : WellFormed pathJoin [exampleSuite] exampleCases .client ∧
+    ((newLibrary pathJoin [exampleSuite] (inSet exampleCases) .client).toOption.map fun l => l.map (·.fullName)) =
+      some ["Basic/HTTPVersion:2/TLS:true/unary/ok", "Basic/HTTPVersion:1/TLS:false/unary/ok"] := by decide
+
+/-- two admitted cases with different open-axes projections (`names_injective_case` is not vacuous) -/
+example : Admits exampleSuite .client (exampleCases.getD 0 default) ∧ Admits exampleSuite .client (exampleCases.getD 1 default) ∧
+    openAxes exampleSuite (exampleCases.getD 0 default) ≠ openAxes exampleSuite (exampleCases.getD 1 default) := by decide
+
+/-- the config case all of whose axes the suites below pin -/
+def pinnedCase : Case := ⟨.v1, .connect, .proto, .identity, .unary, true, false, false, false, .unspec⟩
+
+def pinnedSuite (name : String) (tests : List String) : Suite :=
+  { name := name, mode := .unspec, protocols := [.connect], versions := [.v1], codecs := [.proto],
+    comps := [.identity], cvm := .unspec, reliesOnTls := true, reliesOnCerts := false,
+    reliesOnGet := false, reliesOnLimit := false,
+    tests := tests.map fun n => { name := n, st := .unary, service := "", method := "", rawRequest := false,
+                                  rawResponse := false, hasExpected := false } }
+
+/-- a genuinely duplicated definition (two tests named `x`): the error fires, `NamesClean` holds -/
+example : NamesClean [pinnedSuite "S" ["x", "x"]] ∧ ¬ DefinitionsDistinct [pinnedSuite "S" ["x", "x"]] ∧
+    errOf (newLibrary pathJoin [pinnedSuite "S" ["x", "x"]] (inSet [pinnedCase]) .client) =
+      some (.duplicateName "S/x") := by decide
+
+/-- names `path.Clean` rewrites collide although no definition is duplicated: `a/../b` and `b` -/
+example : DefinitionsDistinct [pinnedSuite "S" ["a/../b", "b"]] ∧ ¬ NamesClean [pinnedSuite "S" ["a/../b", "b"]] ∧
+    NoRepeat (pinnedSuite "S" ["a/../b", "b"]) pinnedCase ∧
+    errOf (newLibrary pathJoin [pinnedSuite "S" ["a/../b", "b"]] (inSet [pinnedCase]) .client) =
+      some (.duplicateName "S/b") := by decide
+
+/-- a suite name that is a segment-wise prefix of another: test `b/c` of suite `a` and test `c` of
+suite `a/b` are both `a/b/c`, although every name is clean and no definition is duplicated -/
+example :
+    let suites := [pinnedSuite "a" ["b/c"], pinnedSuite "a/b" ["c"]]
+    DefinitionsDistinct suites ∧ (∀ s ∈ suites, CleanName s.name ∧ ∀ t ∈ s.tests, CleanName t.name) ∧
+    ¬ NamesClean suites ∧
+    errOf (newLibrary pathJoin suites (inSet [pinnedCase]) .client) = some (.duplicateName "a/b/c") := by decide
 
 end ConfModel.Props.C07
